@@ -12,11 +12,12 @@ Import ListNotations.
 Local Open Scope N_scope.
 
 (* ---------- values ---------- *)
-Definition root := N.      (* 32-byte roots as big-endian numbers: bytes.Compare = N.compare *)
-Definition slot := N.
-Definition epoch := N.
-Definition index := N.     (* NodeIndex uint64 *)
-Definition ref := (root * slot)%type.   (* NodeRef{Root, Slot} *)
+(* (notations, not definitions: the five kinds of numbers are all plain N for the type checker) *)
+Notation root := N (only parsing).      (* 32-byte roots as big-endian numbers: bytes.Compare = N.compare *)
+Notation slot := N (only parsing).
+Notation epoch := N (only parsing).
+Notation index := N (only parsing).     (* NodeIndex uint64 *)
+Notation ref := (N * N)%type (only parsing).   (* NodeRef{Root, Slot} *)
 Definition NONE : index := max64.
 Definition ref_eqb (a b : ref) : bool := (fst a =? fst b) && (snd a =? snd b).
 Definition zero_ref : ref := (0, 0).
